@@ -109,9 +109,12 @@ PROPS = {
         "verus": [(U2, ["U2."]), (U3, ["U3.pre", "U3.finish", "U3.end_row", "C03.finish", "C03.finalize", "C07.row.packet"])],
     },
     "C15": {
+        # the client decodes with the ADVERTISED column type and flags: the column definitions (U2) are
+        # part of what "the client decodes exactly the same number" depends on
+        "witness": ("w_server", ['w_c15_ints', 'w_c07_binary']),
         "title": "Integer results are exact or refused, never silently altered",
         "kani": [("k4_ints", None)],
-        "verus": [],
+        "verus": [(U2, ["C09.coldefs"])],
     },
     "C16": {
         "witness": ("w_server", ['w_c16_c17_stmt']),
